@@ -1,12 +1,19 @@
 package props
 
 import (
+	"encoding/binary"
 	"fmt"
+	"hash/fnv"
+	"io"
+	"math"
 	"os"
+	"sort"
 	"strconv"
 	"testing"
 
 	"github.com/tobgu/qframe"
+	"github.com/tobgu/qframe/config/groupby"
+	"github.com/tobgu/qframe/types"
 
 	"verifharness/hx"
 )
@@ -249,5 +256,154 @@ func TestC08Blocks(t *testing.T) {
 	}
 	evC08New.CaseHash(true, 0x424c4f43, func() string {
 		return fmt.Sprintf("block sizes: constant columns of %v rows through New, Slice, Copy, Select (%d frames read back)", blockSizes(), runs)
+	}, "block-sizes")
+}
+
+// quickSnap is a cheap fingerprint of everything observable about a frame (names, types, Len, every cell through the
+// typed views), for the block-size persistence pass.
+func quickSnap(qf qframe.QFrame) uint64 {
+	h := fnv.New64a()
+	w := func(s string) { _, _ = h.Write([]byte(s)); _, _ = h.Write([]byte{0}) }
+	if qf.Err != nil {
+		w("err:" + qf.Err.Error())
+		return h.Sum64()
+	}
+	w(strconv.Itoa(qf.Len()))
+	var num [8]byte
+	for i, name := range qf.ColumnNames() {
+		w(name)
+		typ := qf.ColumnTypes()[i]
+		w(string(typ))
+		switch typ {
+		case types.Int:
+			v, _ := qf.IntView(name)
+			for _, x := range v.Slice() {
+				binary.LittleEndian.PutUint64(num[:], uint64(x))
+				_, _ = h.Write(num[:])
+			}
+		case types.Float:
+			v, _ := qf.FloatView(name)
+			for _, x := range v.Slice() {
+				binary.LittleEndian.PutUint64(num[:], math.Float64bits(x))
+				_, _ = h.Write(num[:])
+			}
+		case types.Bool:
+			v, _ := qf.BoolView(name)
+			for _, x := range v.Slice() {
+				if x {
+					_, _ = h.Write([]byte{1})
+				} else {
+					_, _ = h.Write([]byte{0})
+				}
+			}
+		case types.String:
+			v, _ := qf.StringView(name)
+			for _, p := range v.Slice() {
+				if p == nil {
+					_, _ = h.Write([]byte{0xff, 0})
+				} else {
+					w(*p)
+				}
+			}
+		case types.Enum:
+			v, _ := qf.EnumView(name)
+			for _, p := range v.Slice() {
+				if p == nil {
+					_, _ = h.Write([]byte{0xff, 0})
+				} else {
+					w(*p)
+				}
+			}
+		}
+	}
+	return h.Sum64()
+}
+
+// TestC01Blocks: persistence on big frames. For each block size a small family (the frame in storage order, reversed,
+// a slice and a projection of the reversed one) is fingerprinted; then one operation of every kind is applied to the
+// reversed frame and all fingerprints are taken again.
+func TestC01Blocks(t *testing.T) {
+	ops := []struct {
+		name string
+		run  func(qf qframe.QFrame)
+	}{
+		{"Filter", func(qf qframe.QFrame) {
+			_ = qf.Filter(qframe.Or(qframe.Filter{Column: "i1", Comparator: ">", Arg: 0}, qframe.Not(qframe.Filter{Column: "s1", Comparator: "like", Arg: "s1%"})))
+		}},
+		{"Sort", func(qf qframe.QFrame) {
+			_ = qf.Sort(qframe.Order{Column: "s1"}, qframe.Order{Column: "f1", Reverse: true})
+		}},
+		{"Distinct one key", func(qf qframe.QFrame) { _ = qf.Distinct(groupby.Columns("i1")) }},
+		{"Distinct string key", func(qf qframe.QFrame) { _ = qf.Distinct(groupby.Columns("s1"), groupby.Null(true)) }},
+		{"Distinct two keys", func(qf qframe.QFrame) { _ = qf.Distinct(groupby.Columns("e1", "b1")) }},
+		{"Distinct all", func(qf qframe.QFrame) { _ = qf.Distinct() }},
+		{"GroupBy+Aggregate+QFrames", func(qf qframe.QFrame) {
+			g := qf.GroupBy(groupby.Columns("i2"))
+			_ = g.Aggregate(qframe.Aggregation{Fn: "sum", Column: "f1"}, qframe.Aggregation{Fn: "max", Column: "i1"}, qframe.Aggregation{Fn: "count", Column: "s1", As: "n"})
+			_, _ = g.QFrames()
+		}},
+		{"GroupBy enum key", func(qf qframe.QFrame) {
+			_ = qf.GroupBy(groupby.Columns("e1"), groupby.Null(true)).Aggregate(qframe.Aggregation{Fn: "majority", Column: "b1"})
+		}},
+		{"Apply", func(qf qframe.QFrame) {
+			_ = qf.Apply(qframe.Instruction{Fn: hx.Int2, DstCol: "i1", SrcCol1: "i1", SrcCol2: "i2"}, qframe.Instruction{Fn: "ToUpper", DstCol: "s1", SrcCol1: "s1"},
+				qframe.Instruction{Fn: "ToUpper", DstCol: "e1", SrcCol1: "e1"}, qframe.Instruction{Fn: 2.5, DstCol: "f1"})
+		}},
+		{"FilteredApply", func(qf qframe.QFrame) {
+			_ = qf.FilteredApply(qframe.Filter{Column: "b1", Comparator: "=", Arg: true}, qframe.Instruction{Fn: hx.FloatToFloat, DstCol: "f1", SrcCol1: "f1"})
+		}},
+		{"Eval", func(qf qframe.QFrame) {
+			_ = qf.Eval("i1", qframe.Expr("+", qframe.Expr("abs", types.ColumnName("i1")), types.ColumnName("i2"), 3))
+		}},
+		{"Copy/WithRowNums/Select/Drop/Slice", func(qf qframe.QFrame) {
+			_ = qf.Copy("i1", "i2").WithRowNums("i2").Select("i2", "i1", "s1").Drop("s1").Slice(1, qf.Len()-1)
+		}},
+		{"ToCSV/ToJSON/String/Equals", func(qf qframe.QFrame) {
+			_ = qf.ToCSV(io.Discard)
+			_ = qf.ToJSON(io.Discard)
+			_ = qf.String()
+			_, _ = qf.Equals(qf)
+		}},
+		{"views", func(qf qframe.QFrame) {
+			if v, err := qf.IntView("i1"); err == nil {
+				s := v.Slice()
+				sort.Ints(s)
+			}
+			if v, err := qf.FloatView("f1"); err == nil {
+				s := v.Slice()
+				for i := range s {
+					s[i] = -1
+				}
+			}
+		}},
+	}
+	sizes := []int{1023, 1024, 1025, 2048, 4097, 16385}
+	if tier() == "thorough" {
+		sizes = blockSizes()
+	}
+	runs := 0
+	for _, n := range sizes {
+		_, frames, _ := blockFrames(n, blockSeed())
+		rev := frames[1]
+		family := []qframe.QFrame{frames[0], rev, rev.Slice(n/3, n-7), rev.Select("s1", "i1", "e1", "id")}
+		names := []string{"the frame in storage order", "the reversed frame (receiver)", "a slice of the receiver", "a projection of the receiver"}
+		before := make([]uint64, len(family))
+		for i, f := range family {
+			before[i] = quickSnap(f)
+		}
+		for _, op := range ops {
+			if perr := hx.Safely(func() { op.run(rev) }); perr != nil {
+				t.Fatalf("%s on a frame of %d rows panicked: %v", op.name, n, perr)
+			}
+			for i, f := range family {
+				if quickSnap(f) != before[i] {
+					t.Fatalf("%s applied to a frame of %d rows changed %s", op.name, n, names[i])
+				}
+			}
+			runs++
+		}
+	}
+	evC01.CaseHash(true, 0x424c4f43, func() string {
+		return fmt.Sprintf("block sizes: %d operations x %v rows, a family of 4 frames fingerprinted before and after each (%d runs)", len(ops), sizes, runs)
 	}, "block-sizes")
 }
